@@ -75,6 +75,50 @@ def main(tier: str) -> int:
     streams = real_streams(seed, tier)
     evaluations = 0
     samples = []
+    # larger streams: > 64 KiB and > 1000 frames, and frames whose payload is exactly 1 MiB - 1 / 1 MiB / 1 MiB + 1 (the frame reader's chunk size),
+    # with short reads late in the stream and around the 8 KiB buffer refills
+    I_ = lambda x: ("iri", x)  # noqa: E731
+    many = [(I_(f"http://e/s{i % 50}"), I_(f"http://e/p{i % 7}"), ("lit", f"value {i}", "", "")) for i in range(2400 if tier == "quick" else 9000)]
+    big_streams = [("many-frames", impl.serialize(impl.default_cfg(integ="generic", entry="flat_to_file", sclass="triple", ltype=1, frame_size=2, preset=(64, 8, 0)), many))]
+    for target in (2**20 - 1, 2**20, 2**20 + 1):
+        def build(n_):
+            sts = [(I_("http://e/s"), I_("http://e/p"), ("lit", "a", "", "")), (I_("http://e/s"), I_("http://e/p"), ("lit", "L" * n_, "", "")),
+                   (I_("http://e/s2"), I_("http://e/p"), ("lit", "z", "", ""))]
+            d_ = impl.serialize(impl.default_cfg(integ="generic", entry="flat_to_file", sclass="triple", ltype=1, frame_size=2, preset=(8, 4, 0)), sts)
+            return d_, [e - b for _, b, e in wire.frame_extents(d_)]
+        n_ = target
+        for _ in range(4):
+            d_, lens_ = build(n_)
+            big_ = max(lens_)
+            if big_ == target:
+                break
+            n_ -= big_ - target
+        if max(lens_) == target:
+            big_streams.append((f"frame-payload-{target}", d_))
+    for label, data in big_streams:
+        want_big = impl.parse("generic", data, "flat")
+        scheds = [[], [8192], [8191, 1], [4096, 4096, 1, 2, 3], [100] * 30 + [1, 2, 3]] + [[rnd.choice([1, 2, 3, 7, 100, 4096, 8191, 8192, 8193, 65536]) for _ in range(40)] for _ in range(6)]
+        for sched in scheds:
+            for then in (None, 8192, 1000):
+                evaluations += 1
+                try:
+                    got = impl.parse("generic", framing.ChunkedRaw(data, sched, then=then), "flat")
+                    if got != want_big:
+                        run.violation({"source": "non-seekable", "integ": "generic", "clause": "result-differs", "stream": label, "first_read_lt_3": False},
+                                      f"{label}: schedule {sched[:8]}... (then {then}): {len(got)} items vs {len(want_big)} all at once", {"stream": label, "schedule": sched, "then": then})
+                except Exception as ex:  # noqa: BLE001
+                    run.violation({"source": "non-seekable", "integ": "generic", "clause": "raised", "stream": label, "first_read_lt_3": False, "framing": "delimited"},
+                                  f"{label}: schedule {sched[:8]}... (then {then}): {type(ex).__name__}: {str(ex)[:80]}", {"stream": label, "schedule": sched, "then": then})
+        with tempfile.TemporaryDirectory(dir=env.workdir()) as d:
+            for kind, opener in framing.seekable_sources(data, d):
+                evaluations += 1
+                try:
+                    with opener() as src:
+                        got = impl.parse("generic", src, "flat")
+                    if got != want_big:
+                        run.violation({"source": kind, "integ": "generic", "clause": "result-differs", "stream": label}, f"{label} from {kind}: {len(got)} vs {len(want_big)} items", {"stream": label})
+                except Exception as ex:  # noqa: BLE001
+                    run.violation({"source": kind, "integ": "generic", "clause": "raised", "stream": label}, f"{label} from {kind}: {type(ex).__name__}: {str(ex)[:80]}", {"stream": label})
     for label, data, delim in streams:
         want = {integ: impl.parse(integ, data, "flat") for integ in ("generic", "rdflib")}
         wantg = impl.parse("generic", data, "grouped") if delim else None
